@@ -272,3 +272,71 @@ fn c03_as_mut_ptr_of_a_shared_uninit_arc_grants_nothing() {
     drop(b);
     drop(a);
 }
+
+#[test]
+fn c11_borrow_unsize_and_from_ptr_of_other_kinds() {
+    use unsize::{CoerceUnsize, Coercion};
+    let a: Arc<[u16; 4]> = Arc::new([1, 2, 3, 4]);
+    let b: ArcBorrow<[u16; 4]> = a.borrow_arc();
+    let bs: ArcBorrow<[u16]> = b.unsize(Coercion::to_slice());
+    let _ = &bs;
+    assert_eq!(ArcBorrow::strong_count(&b), 1);
+    let o = Arc::into_raw_offset(Arc::new(D(3)));
+    let ob = unsafe { ArcBorrow::from_ptr(&*o as *const D) };
+    // (a pointer obtained through Deref is reference-derived: only reading through the borrow is allowed)
+    assert_eq!(ob.get().0, 3);
+    let a2 = Arc::from_raw_offset(o);
+    let ab = unsafe { ArcBorrow::from_ptr(Arc::as_ptr(&a2)) };
+    let c = ab.clone_arc();
+    assert_eq!(Arc::count(&c), 2);
+    let d: Arc<dyn Speak> = c.unsize(Coercion!(to dyn Speak));
+    drop(a2);
+    assert_eq!(d.speak(), 3);
+    drop(d); // the last handle is the unsized one
+}
+
+#[test]
+fn c02_arc_swap_under_threads() {
+    use arc_swap::ArcSwapAny;
+    use std::sync::Arc as StdArc;
+    let s: StdArc<ArcSwapAny<Arc<D>>> = StdArc::new(ArcSwapAny::new(Arc::new(D(0))));
+    let st: StdArc<ArcSwapAny<ThinArc<D, u8>>> = StdArc::new(ArcSwapAny::new(ThinArc::from_header_and_slice(D(0), &[0u8])));
+    let mut hs = Vec::new();
+    for i in 0..2u32 {
+        let s = s.clone();
+        let st = st.clone();
+        hs.push(std::thread::spawn(move || {
+            for k in 0..3 {
+                let v = s.load_full();
+                assert!(v.0 <= 10);
+                s.store(Arc::new(D(i * 3 + k)));
+                let t = st.load_full();
+                assert_eq!(t.slice.len(), 1);
+                st.store(ThinArc::from_header_and_slice(D(k), &[k as u8]));
+            }
+        }));
+    }
+    for h in hs {
+        h.join().unwrap();
+    }
+}
+
+#[test]
+fn c04_callbacks_that_keep_a_clone() {
+    let a = Arc::new(D(1));
+    let kept = a.with_raw_offset_arc(|o| o.clone());
+    assert_eq!(Arc::count(&a), 2);
+    let kept2 = kept.with_arc(|x| x.clone());
+    assert_eq!(Arc::count(&a), 3);
+    let t = ThinArc::from_header_and_slice(D(2), &[1u8]);
+    let f = t.with_arc(|x| x.clone());
+    assert_eq!(ThinArc::strong_count(&t), 2);
+    let b = a.borrow_arc();
+    let k3 = b.with_arc(|x| x.clone());
+    assert_eq!(Arc::count(&a), 4);
+    let r = std::panic::catch_unwind(std::panic::AssertUnwindSafe(|| b.with_arc(|_| panic!("in callback"))));
+    assert!(r.is_err());
+    assert_eq!(Arc::count(&a), 4);
+    drop((kept, kept2, f, k3));
+    assert_eq!(Arc::count(&a), 1);
+}
